@@ -1187,3 +1187,92 @@ pub fn gen(name: &'static str, rng: &mut Rng) -> Option<Case> {
     };
     Some(c)
 }
+
+// ---------------------------------------------------------------------------------------------
+// Owned variants of a tensor with the same logical content.
+
+#[derive(Copy, Clone, Debug, PartialEq)]
+pub enum Var {
+    Contig,
+    VecCap,
+    Spare,
+    Permuted,
+    Strided,
+}
+pub const VARS: [Var; 5] = [Var::Contig, Var::VecCap, Var::Spare, Var::Permuted, Var::Strided];
+
+pub fn variant_t<T: Copy + Default>(t: &Tensor<T>, var: Var, rng: &mut Rng) -> Tensor<T> {
+    let shape = t.shape().to_vec();
+    match var {
+        Var::Contig => t.to_tensor(),
+        Var::VecCap => {
+            let mut v: Vec<T> = Vec::with_capacity(t.len() * 2 + 16);
+            v.extend(t.iter().copied());
+            Tensor::from_data(&shape, v)
+        }
+        Var::Spare => {
+            if shape.is_empty() {
+                return t.to_tensor();
+            }
+            let ax = rng.usize_below(shape.len());
+            let mut big = shape.clone();
+            big[ax] += 1 + rng.usize_below(3);
+            let mut out = Tensor::<T>::with_capacity(&big, ax);
+            out.append(ax, &t.view()).expect("append");
+            out
+        }
+        Var::Permuted => {
+            let n = shape.len();
+            let mut perm: Vec<usize> = (0..n).collect();
+            rng.shuffle(&mut perm);
+            let mut inv = vec![0usize; n];
+            for (i, &p) in perm.iter().enumerate() {
+                inv[p] = i;
+            }
+            let mut p = t.permuted(&perm).to_tensor();
+            p.permute(&inv);
+            p
+        }
+        Var::Strided => {
+            // contiguous strides scaled by 2 (gaps between all elements)
+            let n = shape.len();
+            let mut strides = vec![0usize; n];
+            let mut acc = 2usize;
+            for d in (0..n).rev() {
+                strides[d] = acc;
+                acc *= shape[d].max(1);
+            }
+            let len = if shape.iter().any(|&s| s == 0) {
+                0
+            } else {
+                shape.iter().zip(&strides).map(|(&s, &st)| (s - 1) * st).sum::<usize>() + 1
+            };
+            let mut data = vec![T::default(); len + 3];
+            let src: Vec<T> = t.iter().copied().collect();
+            let mut idx = vec![0usize; n];
+            for x in src {
+                let off: usize = idx.iter().zip(&strides).map(|(&i, &s)| i * s).sum();
+                data[off] = x;
+                for d in (0..n).rev() {
+                    idx[d] += 1;
+                    if idx[d] < shape[d] {
+                        break;
+                    }
+                    idx[d] = 0;
+                }
+            }
+            Tensor::from_data_with_strides(&shape, data, &strides).expect("strided")
+        }
+    }
+}
+
+pub fn variant(v: &Value, var: Var, rng: &mut Rng) -> Value {
+    match v {
+        Value::FloatTensor(t) => variant_t(t, var, rng).into(),
+        Value::Int32Tensor(t) => variant_t(t, var, rng).into(),
+        Value::Int8Tensor(t) => variant_t(t, var, rng).into(),
+        Value::UInt8Tensor(t) => variant_t(t, var, rng).into(),
+        other => other.clone(),
+    }
+}
+
